@@ -106,6 +106,8 @@ def _host(inst, rs):
             attrs["transA"] = 1
         if inst["transB"]:
             attrs["transB"] = 1
+        elif inst.get("M", 0) % 2 == 0 or inst.get("K", 0) % 2 == 0:
+            attrs["transB"] = 0             # the attribute explicitly at its default
         if inst["alpha"] is not None:
             attrs["alpha"] = inst["alpha"]
         if inst["gbeta"] is not None:
@@ -228,9 +230,7 @@ def family(ctx):
         ol = None if obs is None else "(%s, %s)" % (U.cql([float(v) for v in obs[0].reshape(-1)]), U.cql([float(v) for v in obs[1].reshape(-1)]))
         cases.append(f"({_lit(inst, t)}, {copt(ol)})")
         meta.append(inst)
-    ok, di, df, raw = U.two_index_lists(ctx, ["OV.Rules.BatchNorm"], "From Coq Require Import QArith.\n"
-                                        f"Definition cases : list bn_case := {clist(cases)}.\n"
-                                        "Definition dis_impl := bn_dis false cases.\nDefinition dis_fixed := bn_dis true cases.")
+    ok, di, df, raw = U.eval_cases(ctx, ["OV.Rules.BatchNorm"], "bn_case", cases, "bn_dis", prelude="From Coq Require Import QArith.\n", chunk=150)
     if not ok:
         ctx.tie_broken("correspondence", f"{FAM}:model-evaluation", raw[-800:])
         return
